@@ -6,6 +6,9 @@ def plan(tier):
     conds += C.t_instr_conds("C17", tier)
     conds += C.t_upd_conds("C17", tier)
     from vf.props.c12 import match_conds
+    from vf.driver import Cond
+    for fc in (0, 2):
+        conds.append(Cond("vf.h.h_disp", "h_elig", case=fc, timeout=600, env={"VF_ORACLE": "C17"}, label=f"H17-assigned-skipped[fleetcfg={fc}]", weight=20))
     conds += match_conds("h_step_disp", "C17", tier, "H17-stepdisp", fcases=(0,) if tier == "quick" else (0, 1, 2, 3))
     return {
         "conds": conds,
